@@ -142,6 +142,10 @@ pub struct RcCase {
     /// completion in index order, q > 0 = round robin with q ops per turn
     #[serde(default)]
     pub rr: u8,
+    /// workers exit without flushing their local bag (their pending garbage is handed over by the
+    /// participant's finalization at thread exit)
+    #[serde(default)]
+    pub noflush: bool,
 }
 
 pub const MAX_RCS: usize = 6;
@@ -1482,6 +1486,11 @@ impl Th {
                         "{} of obj{} returned a reference, but the object's destruction started while the call was in progress (popped={} dropped={} freed={}); trace: {}",
                         what, o, ob.popped, ob.dropped, ob.freed, s.tail(40)
                     );
+                    // the same instant violates C01 (a counted owner of a destructed object was
+                    // handed out): report it under the property being checked
+                    if *CURRENT_PROP.lock().unwrap() == "C01" {
+                        violation("C01", "O-own", "O-own/acquired-after-destruct/upgrade", &d);
+                    }
                     violation("C05", "O-upgrade", &sig, &d);
                 }
                 s.objs[o].upgrades_ok_before += 1;
@@ -1575,7 +1584,7 @@ impl Th {
     }
 
     /// Releases everything the thread still holds (as ordinary API calls).
-    pub fn epilogue(&mut self) {
+    pub fn epilogue(&mut self, flush: bool) {
         sched::op_begin();
         while !self.frames.is_empty() {
             let f = self.frames.len() - 1;
@@ -1793,6 +1802,7 @@ pub fn run_case(case: &RcCase) -> RcRun {
     let epoch0 = circ::verif::global_epoch();
     sched::init_rr(n, case.sched.clone(), case.rr as u32);
     let mut handles = Vec::new();
+    let noflush = case.noflush;
     for t in 0..n {
         let ops: Vec<Op> = case.threads.get(t).cloned().unwrap_or_default();
         let h = std::thread::Builder::new()
@@ -1807,7 +1817,7 @@ pub fn run_case(case: &RcCase) -> RcRun {
                             check_counts(shared, &[&th], "after-op");
                         }
                     }
-                    th.epilogue();
+                    th.epilogue(!noflush);
                     (th.executed, th.noops)
                 }));
                 if let Err(e) = res {
@@ -1915,8 +1925,13 @@ fn get(c: &std::collections::BTreeMap<String, u64>, k: &str) -> u64 {
     c.get(k).cloned().unwrap_or(0)
 }
 
+static CURRENT_PROP: std::sync::Mutex<&'static str> = std::sync::Mutex::new("");
+
 /// The exec function of all RcWorld-based checks.
 pub fn exec(prop: &str, v: &serde_json::Value) -> Report {
+    if prop == "C01" {
+        *CURRENT_PROP.lock().unwrap() = "C01";
+    }
     let case: RcCase = serde_json::from_value(v.clone()).expect("bad RcCase");
     let run = run_case(&case);
     let c = &run.counters;
